@@ -1,6 +1,8 @@
 /- Driver/Form — C14 model driver: field value decoding and numeric acceptance -/
 import SuplaVerif.Model.Form
 import SuplaVerif.Model.Cred
+import SuplaVerif.Model.FormScan
+import SuplaVerif.Gen.FormTable
 import Driver.Common
 namespace Driver.FormDrv
 open SuplaVerif Driver
@@ -27,6 +29,16 @@ def step (_ : Unit) (toks : List String) : Unit × List String :=
       let r := keepLongPassword L E oldPwd oldMail newMail
       ((), [s!"KEEP {hx r.1} {hx r.2}"])
     | _, _, _, _, _ => ((), ["BADOP"])
+  | ["scan", mq, seg] =>
+    match Bytes.ofHex seg with
+    | some sg =>
+      match postScan Gen.formTable Gen.formPro (mq == "1") sg with
+      | some (m, evs, _) =>
+        let first := m - evs.length
+        let lines := (evs.zip (List.range evs.length)).map (fun p => s!"FVAR {p.1.1} {hx (SuplaVerif.cstr p.1.2)} 1 {first + p.2}")
+        ((), lines ++ [s!"COUNT {m} {if m ≥ Gen.formMinFields then 1 else 0}"])
+      | none => ((), ["COUNT 0 0"])
+    | none => ((), ["BADOP"])
   | ["margin", rest] =>
     match Bytes.ofHex rest with
     | some r => ((), [s!"NUM {applyMargin (fieldValue 12 r)}"])
